@@ -198,7 +198,7 @@ def run_spec(spec, ctx):
     if unsupported and status == "pass":
         status = "inconclusive"
         detail = "unsupported MIR construct: " + unsupported[0]
-    if status == "pass" and obligations == 0:
+    if status == "pass" and obligations + sum(e.trivial_obligations for e in exes) == 0:
         # vacuity guard: a spec that reaches no obligation has shown nothing
         status = "inconclusive"
         detail = "no proof obligation was reached (vacuous run)"
@@ -4197,6 +4197,139 @@ def spec_wrap_text_preserved(ctx, make_exe, plans=None):
                 raise Inconclusive("no successful path for %s" % mode)
     return {"function": f.name, "paths": total}
 
+# ----------------------------------------------------------------------------
+# SPEC: the tree driver visits every node once, in document order, and hands each parent the results of its
+# children in order (tree_map_reduce, the loop behind both DOM -> render tree and render tree -> lines)
+# ----------------------------------------------------------------------------
+
+def spec_tree_traversal(ctx, make_exe):
+    import summaries
+    orig = summaries.summarize
+    f = the(ctx.find(r"^tree_map_reduce$"), "tree_map_reduce")
+    # shape: node -> children (document order); every node may also turn out finished or "nothing"
+    shapes = [{0: [1, 2, 3], 2: [4, 5]}, {0: [1], 1: [2], 2: [3]}, {0: []}]
+    if ctx.tier == "thorough":
+        shapes.append({0: [1, 2], 1: [3, 4], 2: [5, 6], 4: [7]})
+    total = 0
+    for shape in shapes:
+        nodes = sorted(set([0] + [c for cs in shape.values() for c in cs]))
+        exe = make_exe(loop_bound=4 * len(nodes) + 8)
+        st = State()
+        kind = {i: exe.fresh("u8", "node%d.kind" % i) for i in nodes}     # 0 finished, 1 pending children, 2 nothing
+        for i in nodes:
+            st.pc.append(z3.ULE(kind[i].e, 2))
+        NV = {i: VOpaque("N", "n%d" % i) for i in nodes}
+
+        def nm(exe_, st_, v):
+            while isinstance(v, VRef):
+                v = exe_.deref(st_, v)
+            return getattr(v, "name", None) or ""
+
+        def ev(st_, *item):
+            st_.calls.append(("verif::event", list(item), f.name, "-"))
+
+        def summ(exe_, st_, f_, bb_, callee, args, dest_ty):
+            c = callee.strip()
+            if re.search(r"^Box::<\{closure@.*\}>::new$", c):
+                return [(st_, args[0])]
+            if re.search(r"Box::<\[N; 1\]>::new_uninit$", c):
+                return [(st_, VOpaque("Box", exe_.fresh_name("box")))]
+            if re.search(r"box_assume_init_into_vec_unsafe::<N, 1>$", c):
+                return [(st_, VVec([NV[0]]))]
+            if re.search(r"^<M as FnMut<\(&mut C, N\)>>::call_mut$", c):
+                tup = args[1]
+                h = tup.fields[1] if isinstance(tup, VAgg) else None
+                i = int(nm(exe_, st_, h)[1:])
+                outs = []
+                for k, build in ((0, lambda: VAgg("TreeMapResult::Finished", "Finished", [VOpaque("R", "r%d" % i)])),
+                                 (1, lambda: VAgg("TreeMapResult::PendingChildren", "PendingChildren",
+                                                  [VVec([NV[c_] for c_ in shape.get(i, [])]), VOpaque("cons", "cons%d" % i),
+                                                   VAgg("Option::Some", "Some", [VOpaque("prefn", "pre%d" % i)]),
+                                                   VAgg("Option::Some", "Some", [VOpaque("postfn", "post%d" % i)])],
+                                                  ["children", "cons", "prefn", "postfn"])),
+                                 (2, lambda: VAgg("TreeMapResult::Nothing", "Nothing", []))):
+                    cond = kind[i].e == k
+                    if exe_.feasible(st_, cond):
+                        s3 = st_.clone()
+                        s3.pc.append(cond)
+                        ev(s3, "process", i, k)
+                        outs.append((s3, VAgg("Result::Ok", "Ok", [build()])))
+                return outs
+            if re.search(r"^<Box<dyn for<'a, 'b> Fn\(&'a mut C, &'b [NR]\) -> .*> as Fn<.*>>::call$", c):
+                who = nm(exe_, st_, args[0])
+                tup = args[1]
+                what = nm(exe_, st_, tup.fields[1]) if isinstance(tup, VAgg) else "?"
+                ev(st_, "call", who, what)
+                return [(st_, VAgg("Result::Ok", "Ok", [VUnit()]))]
+            if re.search(r"^<Box<dyn for<'a> FnOnce\(&'a mut C, Vec<R>\) -> .*> as FnOnce<.*>>::call_once$", c):
+                who = args[0]
+                while isinstance(who, VRef):
+                    who = exe_.deref(st_, who)
+                tup = args[1]
+                kids = tup.fields[1] if isinstance(tup, VAgg) else None
+                if isinstance(who, VOpaque) and re.match(r"cons\d+$", who.name):
+                    i = int(who.name[4:])
+                    ev(st_, "construct", i, [getattr(x, "name", "?") for x in kids.elems] if isinstance(kids, VVec) else None)
+                    return [(st_, VAgg("Result::Ok", "Ok", [VAgg("Option::Some", "Some", [VOpaque("R", "r%d" % i)])]))]
+                # the driver's own top-level closure: executed from its MIR
+                return exe_.call_closure(st_, who, [tup.fields[0], kids])
+            return orig(exe_, st_, f_, bb_, callee, args, dest_ty)
+        summaries.summarize = summ
+        try:
+            outs = exe.run(f.name, {1: VRef("val", VOpaque("C", "context")), 2: NV[0], 3: VOpaque("M", "process_node")}, st)
+        finally:
+            summaries.summarize = orig
+        total += len(outs)
+        if not outs:
+            raise Inconclusive("no path returned")
+        for (s2, ret) in outs:
+            evs = [c[1] for c in s2.calls if c[0] == "verif::event"]
+            kinds = {}
+            for e in evs:
+                if e[0] == "process":
+                    kinds[e[1]] = e[2]
+            # reference: what a correct driver does on this path's choices
+            want = []
+
+            def walk(i, parent):
+                if parent is not None:
+                    want.append(["call", "pre%d" % parent, "n%d" % i])
+                k = kinds.get(i)
+                want.append(["process", i, k])
+                if k == 0:
+                    if parent is not None:
+                        want.append(["call", "post%d" % parent, "r%d" % i])
+                    return "r%d" % i
+                if k == 1:
+                    res = []
+                    for c_ in shape.get(i, []):
+                        r_ = walk(c_, i)
+                        if r_ is not None:
+                            res.append(r_)
+                    want.append(["construct", i, res])
+                    if parent is not None:
+                        want.append(["call", "post%d" % parent, "r%d" % i])
+                    return "r%d" % i
+                return None
+            top = walk(0, None)
+            if any(k is None for k in [kinds.get(0)]):
+                raise Inconclusive("the root was not processed on some path")
+            post(exe, s2, z3.BoolVal(evs == want), f.name,
+                 "every node is visited once in document order, pre / post hooks surround each child, and each parent is built from its children's results in order (%s vs %s)" % (
+                     [tuple(e[:2]) for e in evs][:14], [tuple(e[:2]) for e in want][:14]))
+            okr = isinstance(ret, VAgg) and ret.variant == "Ok"
+            got_top = None
+            if okr:
+                o = ret.fields[0]
+                if isinstance(o, VAgg) and o.variant == "Some":
+                    got_top = getattr(o.fields[0], "name", "?")
+                elif isinstance(o, VAgg) and o.variant == "None":
+                    got_top = None
+                else:
+                    got_top = "?"
+            post(exe, s2, z3.BoolVal(okr and got_top == top), f.name, "the result is the root's result (%s, want %s)" % (got_top, top))
+    return {"function": f.name, "paths": total}
+
 
 ALL = [
     Spec("table_col_width", ["C06", "C02", "C01"], spec_table_col_width,
@@ -4420,6 +4553,12 @@ ALL = [
          assumptions=["the contracts of section 9.1, with the elements of every TaggedLine tracked as a token sequence",
                       "hard wrap is the contract here (it keeps the order: wrap_hard_wrap decides that on its MIR)"],
          replay=replay_wrap),
+    Spec("tree_traversal", ["C03", "C07", "C09"], spec_tree_traversal,
+         functions=["tree_map_reduce", "tree_map_reduce::{closure#0}"],
+         bounds="trees of 1, 4 and 6 nodes (thorough: 8); every node arbitrarily finished / pending its children / nothing; hooks present on every pending node",
+         assumptions=["process_node, the hooks and the reducers are scripted and observed; they succeed",
+                      "Box / Vec / vec![x] by contract"],
+         replay=lambda fd, vals, info: {"harness": "m_frag_nested", "values": [[0]]}),
     Spec("link_footnotes", ["C08"], spec_link_footnotes,
          functions=["TextRenderer::start_link", "TextRenderer::end_link"],
          bounds="0-2 links already recorded; footnote flag symbolic",
